@@ -298,7 +298,7 @@ Definition op_names_ok (kok nok : string -> bool) (o : op) : bool :=
 
 (* ================================================================================================ PART B *)
 (* rows of the dispatcher of cg_delete_node as Gen_C04.v lists them *)
-Inductive dtest := TLabel (l : string) | TName (n : string) | TPLabelName (pl n : string).
+Inductive dtest := TLabel (l : string) | TName (n : string) | TNameIf (n field : string) | TPLabelName (pl n : string).
 Inductive sact :=
 | Shift (cnt arr free : string) (custom : bool)
 | Child (ptr free : string) (custom : bool)
@@ -319,6 +319,7 @@ Definition test_matches (pl nl nn : string) (t : dtest) : bool :=
   match t with
   | TLabel l => String.eqb nl l
   | TName n => String.eqb nn n
+  | TNameIf n _ => String.eqb nn n          (* "... && parent->field": taken as if the single child existed (conservative) *)
   | TPLabelName p n => String.eqb pl p && String.eqb nn n
   end.
 Definition row_matches (pl nl nn : string) (r : drow) : bool :=
@@ -386,7 +387,7 @@ Definition disp_lab (dt : list dblock) (nd : list ndrow) (gt : list Goto.brow) (
   end.
 
 Definition test_names (t : dtest) : list string :=
-  match t with TLabel _ => [] | TName n => [n] | TPLabelName _ n => [n] end.
+  match t with TLabel _ => [] | TName n => [n] | TNameIf n _ => [n] | TPLabelName _ n => [n] end.
 Definition row_names (r : drow) : list string :=
   match r with DRow ts _ _ => List.concat (map test_names ts) | DUnparsedRow _ => [] end.
 (* the reserved names under a parent labelled [pl]: every name some arm or the refusal list compares with *)
@@ -518,6 +519,9 @@ Definition extra_ok (acts : list sact) (extra : list string) : bool :=
 Definition drow_ok (ss : Goto.structs_t) (fs : list (string * string)) (pty : string) (r : drow) : bool :=
   match r with
   | DRow ts acts extra => negb (match ts with [] => true | _ => false end)
+                          && forallb (fun t => match t with
+                                               | TNameIf _ f => match Goto.ptr_type ss pty f with Some _ => true | None => false end
+                                               | _ => true end) ts
                           && negb (match acts with [] => true | _ => false end)
                           && forallb (sact_ok ss fs pty) acts && extra_ok acts extra
   | DUnparsedRow _ => false
